@@ -25,6 +25,7 @@ type RecEvent struct {
 	FirstStep   int
 	Honest      bool // created by a real node (not a puppet)
 	Seq         int  // global order of first appearance
+	CreatorInc  int  // incarnation of the creating node when the event first appeared
 }
 
 func (e *RecEvent) loaded() bool { return len(e.Txs) > 0 || len(e.Itxs) > 0 }
@@ -37,17 +38,18 @@ type Recorder struct {
 	// byCreatorIndex detects forks network-wide
 	byCI map[string]string
 	// submissions per node (in order)
-	SubmittedBy map[int][][]byte
+	SubmittedBy map[[2]int][][]byte // (node idx, incarnation) -> submissions in order
 	Forks       []string
 	// memo for ancestry closure of committed payload (used by C04)
 }
 
 func NewRecorder(nw *Network) *Recorder {
-	return &Recorder{nw: nw, Events: map[string]*RecEvent{}, byCI: map[string]string{}, SubmittedBy: map[int][][]byte{}}
+	return &Recorder{nw: nw, Events: map[string]*RecEvent{}, byCI: map[string]string{}, SubmittedBy: map[[2]int][][]byte{}}
 }
 
 func (r *Recorder) noteSubmission(n *SimNode, tx []byte) {
-	r.SubmittedBy[n.Idx] = append(r.SubmittedBy[n.Idx], tx)
+	k := [2]int{n.Idx, n.Incarnation}
+	r.SubmittedBy[k] = append(r.SubmittedBy[k], tx)
 }
 
 func (r *Recorder) creatorIdx(pub string) int {
@@ -76,6 +78,7 @@ func (r *Recorder) add(ev *hg.Event, n *SimNode) *RecEvent {
 	e.CreatorIdx = r.creatorIdx(e.Creator)
 	if e.CreatorIdx >= 0 {
 		e.Honest = !r.nw.Nodes[e.CreatorIdx].Puppet
+		e.CreatorInc = r.nw.Nodes[e.CreatorIdx].Incarnation
 	}
 	r.Events[h] = e
 	r.Order = append(r.Order, e)
